@@ -3,7 +3,9 @@ package fakes
 import (
 	"context"
 	"fmt"
+	"io"
 	"strconv"
+	"strings"
 	"sync"
 
 	"github.com/conduitio/conduit-commons/config"
@@ -146,6 +148,29 @@ func (p *Proc) Process(ctx context.Context, recs []opencdc.Record) []sdk.Process
 			}
 			p.W.Log("proc", "split", idx, fmt.Sprintf("%s|n=%d", src, n))
 			out = append(out, pieces)
+		case "errshort": // fails this record and stops: an ErrorRecord followed by nothing (the rest of the batch is left out)
+			p.W.Log("proc", "error", idx, src)
+			out = append(out, sdk.ErrorRecord{Error: cerrors.Errorf("processor %s rejected %s:%d", p.S.Name, src, idx)})
+			return out
+		case "eoferr": // fails this record with an error that wraps io.EOF (e.g. an HTTP client whose server closed the connection)
+			p.W.Log("proc", "error", idx, src)
+			out = append(out, sdk.ErrorRecord{Error: fmt.Errorf("processor %s: upstream closed the connection: %w", p.S.Name, io.EOF)})
+		case "fmid": // filters the middle piece of a record an earlier processor split, passes everything else
+			if strings.HasPrefix(r.Metadata["verif.piece"], "1/") {
+				p.W.Log("proc", "filterpiece", idx, src+"|piece="+r.Metadata["verif.piece"])
+				out = append(out, sdk.FilterRecord{})
+			} else {
+				out = append(out, sdk.SingleRecord(r))
+			}
+		case "multi1pos": // a MultiRecord holding ONE record that carries its own position (a chunker on a one-chunk input)
+			pc := r.Clone()
+			pc.Position = opencdc.Position(string(r.Position) + "-chunk-0")
+			p.W.Log("proc", "multi1pos", idx, src)
+			out = append(out, sdk.MultiRecord{pc})
+		case "multi0": // an empty MultiRecord
+			p.W.Log("proc", "multi0", idx, src)
+			p.W.Log("proc", "filter", idx, src) // an engine that accepts it handles it as "no record comes out" = filtered
+			out = append(out, sdk.MultiRecord{})
 		case "short":
 			return out
 		case "nil":
